@@ -182,7 +182,8 @@ class Gen:
             # the code of a dictionary class under ANOTHER vendor (or none): an unknown pair that shares its code with a known one
             row = self.rows[r.choice(self.leaf_names + self.grouped_names)]
             code = row["code"]
-            others = [v for v in (None, 10415, 13019, 5535, 1) if v != row["vendor"]]
+            known = {(x["vendor"], x["code"]) for x in self.rows.values()}
+            others = [v for v in (None, 10415, 13019, 5535, 1, 4491) if (v, code) not in known]
             vendor = r.choice(others)
         flags = (0x80 if vendor is not None else 0) | r.choice([0, 0x20, 0x40, 0x60, 0x1f & r.randrange(256)])
         n = r.choice([0, 1, 2, 3, 4, 5, 6, 7, 8, 9, 15, 16, 17, 40])
